@@ -488,6 +488,30 @@ let handle (req : sexp) : String.t =
             jobj ["verdict", jstr verdict; "roundtrip", jbool rt]
         | _ -> bad "parsetoks case" in
       jobj ["status", jstr "ok"; "results", jlist one (lst cases)]
+  | L [A "parsestr"; cases] ->
+      (* Lex.lex + Parse.parse_expr on the characters of a right-hand side, compared with the expression the caller
+         obtained from Lark's tree ("none" = rejected) and - where the caller has them - with the tokens of the
+         harness's regular expression; parsed expressions are printed and parsed again *)
+      let one = function
+        | L [A src; exp; toks] ->
+            let lexed = lex (cs src) in
+            let got = parse_string (cs src) in
+            let verdict = (match exp, got with
+              | A "none", None -> "agree"
+              | A "none", Some _ -> "model-accepts"
+              | _, None -> "model-rejects"
+              | s, Some e -> if expr_eqb e (expr_of s) then "agree" else "differ") in
+            let lexagree = (match toks, lexed with
+              | A "none", _ -> true
+              | L ts, Some l -> l = List.map tok_of ts
+              | L _, None -> false
+              | _ -> bad "parsestr tokens") in
+            let rt = (match got with
+              | Some e -> (match parse_expr (print_expr e) with Some e2 -> expr_eqb e e2 | None -> false)
+              | None -> true) in
+            jobj ["verdict", jstr verdict; "lexagree", jbool lexagree; "lexed", jbool (lexed <> None); "roundtrip", jbool rt]
+        | _ -> bad "parsestr case" in
+      jobj ["status", jstr "ok"; "results", jlist one (lst cases)]
   | L [A "symrhs"; A tries; inp] ->
       (* sympytools.rhs_matrix / jacobi_matrix of the mirror, evaluated at an input point *)
       let o = the_ode () in
